@@ -126,7 +126,9 @@ def gen_script(rng, rounds):
         for _ in range(rng.randrange(0, 3)):
             segs.append(('op', rng.choice(['wev', 'wev', 'cap inf', 'cap 7', 'pstate running'])))
         a = rng.random()
-        if a < 0.8:
+        if a < 0.3:
+            segs.append(('b', gen_answer(rng) + READY))          # answer and READY in one stretch of output
+        elif a < 0.8:
             segs.append(('b', gen_answer(rng)))
         if rng.random() < 0.3:
             segs.append(('b', gen_answer(rng)))                  # trailing bytes after the answer
@@ -138,9 +140,35 @@ def gen_script(rng, rounds):
     return handler, segs
 
 
+def gen_cycles(rng):
+    """READY, event, then k times: the whole answer `RESULT n + n bytes` immediately followed by `READY\\n` (and
+    sometimes by more) in one stretch of output, then the next event"""
+    handler = rng.choice(['strict', 'default'])
+    segs = [('op', 'spawn 100'), ('op', 'pstate running'), ('b', READY), ('send',)]
+    for _ in range(rng.randrange(2, 6)):
+        r = rng.random()
+        n = rng.choice([1, 2, 2, 2, 3, 4, 7, 12])
+        payload = b'OK' if r < 0.7 else (b'FAIL' if r < 0.85 else body(n))
+        stream = result_tok(payload) + READY
+        if rng.random() < 0.15:
+            stream += rng.choice([b'X', READY, b'RESULT 2\nOK'])
+        segs.append(('b', stream))
+        if rng.random() < 0.1:
+            segs.append(('op', 'cap %d' % rng.choice([0, 9, 60])))
+        segs.append(('send',))
+        if rng.random() < 0.15:
+            segs.append(('op', rng.choice(['wev', 'cap inf'])))
+    segs.append(('b', result_tok(b'OK')))
+    return handler, segs
+
+
 def fragment(rng, data, mode):
     if not data:
         return [data]
+    if mode == 'few' and len(data) > 1:
+        k = rng.randrange(1, min(len(data), 4))
+        cuts = sorted(rng.sample(range(1, len(data)), k))
+        return [data[a:b] for a, b in zip([0] + cuts, cuts + [len(data)])]
     if mode == 'whole' or len(data) == 1:
         return [data]
     if mode == 'bytes':
@@ -155,6 +183,20 @@ def all_fragmentations(data):
     for mask in range(1 << (n - 1)):
         cuts = [i + 1 for i in range(n - 1) if mask >> i & 1]
         yield [data[a:b] for a, b in zip([0] + cuts, cuts + [n])]
+
+
+def cut_fragmentations(data, kmax):
+    """every fragmentation of `data` with at most `kmax` cuts"""
+    n = len(data)
+    for k in range(0, kmax + 1):
+        for cuts in itertools.combinations(range(1, n), k):
+            cuts = list(cuts)
+            yield [data[a:b] for a, b in zip([0] + cuts, cuts + [n])]
+
+
+def body(n):
+    """a result payload of n bytes; OK when n == 2 so that the default handler accepts it"""
+    return b'OK' if n == 2 else bytes(65 + (i % 26) for i in range(n))
 
 
 def payload_text(k):
@@ -270,11 +312,21 @@ class Run:
                 raise ValueError(seg)
             acc += outs
         ls, ev = w.lstate(0, 0)
-        self.summ.append((ls, ev, tuple(self.merge_w(acc))))
+        self.summ.append((ls, ev, tuple(self.merge_w(acc)), self.parser_state()))
 
     @staticmethod
     def merge_w(outs):
         return outs
+
+    def parser_state(self):
+        """what the dispatchers still hold (unparsed listener output, the pending result, unwritten envelope bytes):
+        part of 'the interpretation depends only on the byte stream'.  Read best-effort: a refactor that renames
+        these attributes turns the entries into None on every side and the comparison stays meaningful through the
+        later segments."""
+        p = self.w.proc(0, 0)
+        d, di = self.w.stdout_disp(p), self.w.stdin_disp(p)
+        return (getattr(d, 'state_buffer', None), getattr(d, 'resultlen', None), getattr(d, 'result', None),
+                getattr(di, 'input_buffer', None))
 
     def watch_outs(self, outs, before):
         """answers / violations seen in one read: bookkeeping for the outstanding-event rule"""
@@ -284,8 +336,8 @@ class Run:
                 self.outstanding = False
             if o.startswith('rej:'):
                 self.outstanding = False
-        ls_now = self.w.lstate(0, 0)[0]
-        if before[0] == 'BUSY' and ls_now == 'UNKNOWN':
+        # a listener put from BUSY directly into UNKNOWN (bad result line, handler failure) must have its event returned
+        if any(o.endswith(':BUSY>UNKNOWN') for o in outs):
             if not any(o == 'rej:0.0:%s' % held for o in outs):
                 self.viol.append(('event-not-returned', 'BUSY -> UNKNOWN without an EventRejectedEvent for event %s' % held))
 
@@ -349,25 +401,42 @@ def check_script(ctx, handler, segs, fraglists, cases, impls):
             seen.add(kind)
             ctx.violation(kind, what, {'handler': handler, 'ops': r.ops})
     base = summaries[0]
-    for s, frags in zip(summaries[1:], fraglists[1:]):
+    for idx, (s, frags) in enumerate(zip(summaries[1:], fraglists[1:])):
         if normalise(s) != normalise(base):
             k = next(i for i, (a, b) in enumerate(zip(normalise(s), normalise(base))) if a != b)
             ctx.violation('fragmentation-dependent',
-                          'segment %d %r: delivered whole -> %r, delivered as %r -> %r' % (k, segs[k], base[k], [hexs(x) for x in frags[k]], s[k]),
-                          {'handler': handler, 'segments': [repr(x) for x in segs], 'fragments': [[hexs(x) for x in f] for f in frags]})
+                          'segment %d %r: delivered as %r -> %r, delivered as %r -> %r' % (
+                              k, segs[k], [hexs(x) for x in (fraglists[0][k] or [])], normalise(base)[k],
+                              [hexs(x) for x in (frags[k] or [])], normalise(s)[k]),
+                          {'handler': handler, 'ops': cases[len(cases) - len(fraglists) + idx + 1][1],
+                           'ops_whole': cases[len(cases) - len(fraglists)][1]})
+            break
+
+
+def final_view(summ):
+    """the whole final state and everything that was output, for comparing two deliveries of the same stream"""
+    n = normalise(summ)
+    outs = []
+    for _, _, o, _ in n:
+        for x in o:
+            if x.startswith('w:') and outs and outs[-1].startswith('w:'):
+                outs[-1] = outs[-1] + x.split(':')[-1]
+            else:
+                outs.append(x)
+    return (n[-1][0], n[-1][1], n[-1][3], tuple(o for o in outs if not o.endswith('sent')))
 
 
 def normalise(summ):
     """per segment: final state, held event, outputs with consecutive stdin writes merged"""
     res = []
-    for ls, ev, outs in summ:
+    for ls, ev, outs, hidden in summ:
         m = []
         for o in outs:
             if o.startswith('w:') and m and m[-1].startswith('w:'):
                 m[-1] = m[-1] + o.split(':')[-1]
             else:
                 m.append(o)
-        res.append((ls, ev, tuple(m)))
+        res.append((ls, ev, tuple(m), hidden))
     return res
 
 
@@ -403,6 +472,30 @@ def run(ctx):
                 fl.append(f)
             ctx.count('exhaustive-fragmentations', len(fl))
             check_script(ctx, 'default', segs, fl, cases, impls)
+    # RESULT n + n bytes + following token(s) from BUSY with an event held: every fragmentation with up to 2 (3) cuts
+    busy = up + [('b', READY), ('send',)]
+    tail = [('send',), ('b', b'RESULT 2\nOK'), ('b', READY), ('send',)]
+    for n in range(1, 13):
+        followers = [READY]
+        if n in (2, 5):
+            followers += [READY + b'X', b'RESULT 2\nOK', READY[:3]]
+        for fol in followers:
+            stream = result_tok(body(n)) + fol
+            kmax = 3 if (ctx.tier != 'quick' or n <= 3) and fol == READY else 2
+            segs = busy + [('b', stream)] + tail
+            k = len(busy)
+            fl = []
+            for fr in cut_fragmentations(stream, kmax):
+                f = [None if s[0] != 'b' else [s[1]] for s in segs]
+                f[k] = fr
+                fl.append(f)
+            ctx.count('exhaustive-cut-fragmentations', len(fl))
+            check_script(ctx, 'strict' if n % 2 else 'default', segs, fl, cases, impls)
+    # several complete result + READY cycles, cut anywhere
+    for i in range(ctx.n(60, 1200)):
+        handler, segs = gen_cycles(rng)
+        modes = ['whole', 'bytes', 'random', 'random', 'few', 'few'] + (['few', 'random'] if ctx.tier != 'quick' else [])
+        check_script(ctx, handler, segs, fraglists_for(rng, segs, modes), cases, impls)
     # random scripts
     for i in range(ctx.n(120, 2500)):
         handler, segs = gen_script(rng, rng.randrange(1, 7))
@@ -413,24 +506,36 @@ def run(ctx):
     ctx.correspond('listener', cases, impls)
 
 
+def ops_to_segs(ops):
+    segs = []
+    for op in ops:
+        t = op.split()
+        if t[0] == 'read':
+            segs.append(('b', bytes.fromhex(t[1]) if t[1] != '-' else b''))
+        elif t[0] == 'send':
+            segs.append(('send',))
+        elif t[0] == 'die':
+            segs.append(('die', bytes.fromhex(t[1]) if t[1] != '-' else b''))
+        else:
+            segs.append(('op', op))
+    return segs
+
+
 def replay(ctx, data):
     inp = data['input']
-    if 'ops' in inp:
-        # re-run the recorded operation list on the real objects
-        segs = []
-        for op in inp['ops']:
-            t = op.split()
-            if t[0] == 'read':
-                segs.append(('b', bytes.fromhex(t[1]) if t[1] != '-' else b''))
-            elif t[0] == 'send':
-                segs.append(('send',))
-            elif t[0] == 'die':
-                segs.append(('die', bytes.fromhex(t[1]) if t[1] != '-' else b''))
-            else:
-                segs.append(('op', op))
-        cases, impls = [], []
-        check_script(ctx, inp['handler'], segs, fraglists_for(ctx.rng, segs, ['whole']), cases, impls)
-        ctx.correspond('listener', cases, impls)
+    cases, impls = [], []
+    segs = ops_to_segs(inp['ops'])
+    check_script(ctx, inp['handler'], segs, fraglists_for(ctx.rng, segs, ['whole']), cases, impls)
+    if 'ops_whole' in inp:
+        # the same byte stream delivered in two ways: final state and concatenated outputs must agree
+        views = []
+        for ops in (inp['ops_whole'], inp['ops']):
+            sg = ops_to_segs(ops)
+            r = Run(ctx, inp['handler'], sg, [[s[1]] if s[0] == 'b' else None for s in sg])
+            views.append(final_view(r.summ))
+        if views[0] != views[1]:
+            ctx.violation('fragmentation-dependent', 'delivered one way -> %r, delivered the other way -> %r' % (views[0], views[1]), inp)
+    ctx.correspond('listener', cases, impls)
 
 
 TECHNIQUE = ("Lean 4 theorems (induction over operation lists, fragmentation invariance of the token parser, refinement "
